@@ -261,6 +261,8 @@ func (c *Cluster) restartLoop() {
 		c.incs[req.idx] = inc
 		c.mu.Unlock()
 		c.Mon.onRestart(inc)
+		// further crash points planned for this validator at the height it is in
+		c.armCrashes(inc, c.Mon.LastFinalizedOf(req.idx)+1)
 		if err := c.startInc(inc); err != nil {
 			c.Mon.restartFailed(inc, err)
 		}
@@ -278,28 +280,45 @@ func (c *Cluster) Close() {
 	c.mu.Lock()
 	incs := append([]*Inc(nil), c.allIncs...)
 	c.mu.Unlock()
+	clean := true
 	for _, inc := range incs {
 		crashed := inc.Wal.Crashed()
 		inc.alive.Store(false)
 		if crashed {
-			// frozen incarnation: its engine mutex is held forever; only remove files
-			os.RemoveAll(inc.Node.Base)
+			// frozen incarnation: its engine mutex is held forever; only stop its WAL writers
+			if !waitFor(5*time.Second, inc.Wal.CloseAll) {
+				clean = false
+			}
 			continue
 		}
-		done := make(chan struct{})
-		go func(n *test.Node) {
-			defer close(done)
+		if !waitFor(10*time.Second, func() {
 			defer func() { recover() }()
-			n.Close()
-		}(inc.Node)
-		select {
-		case <-done:
-		case <-time.After(5 * time.Second):
+			inc.Node.Close()
+		}) {
 			c.Mon.note("node close timed out idx=%d gen=%d", inc.Idx, inc.Gen)
-			os.RemoveAll(inc.Node.Base)
+			clean = false
+		}
+		if !waitFor(5*time.Second, inc.Wal.CloseAll) {
+			clean = false
 		}
 	}
-	os.RemoveAll(c.Dir)
+	// WAL housekeeping goroutines panic when their directory disappears: only
+	// remove the scratch dir when every writer is known to be closed (the
+	// driver removes the child's whole TMPDIR after the process exits)
+	if clean {
+		os.RemoveAll(c.Dir)
+	}
+}
+
+func waitFor(d time.Duration, f func()) bool {
+	done := make(chan struct{})
+	go func() { defer close(done); f() }()
+	select {
+	case <-done:
+		return true
+	case <-time.After(d):
+		return false
+	}
 }
 
 // bmWrap observes Finalize calls of the consensus engine.
